@@ -25,6 +25,8 @@ def body(r):
         w["scenario"]["kwargs"]["result_extension"] = rr.choice(["hdf5", "h5", "json"])
         if rr.random() < 0.3:
             w["scenario"]["callback"] = True
+        if sampler == "ns" and rr.random() < 0.3:
+            w["scenario"]["class_objects"] = True
         if sampler == "ns" and rr.random() < 0.2:
             w["scenario"]["kwargs"]["max_iteration"] = rr.choice([15, 40])
         worlds.append(w)
